@@ -16,6 +16,9 @@ def apiEvents : Op → Obs → List Ev
   | .dealloc k, .ok => [.released k]
   | .get k, .alloc a => [.got k (blkOf a)]
   | .get k, .none => [.lookedNone k]
+  | .commitFail k, .alloc a => [.got k (blkOf a)]
+  | .allocFail k, .alloc a => [.got k (blkOf a)]
+  | .deallocFail k, .ok => [.released k]
   | _, _ => []
 
 /-- the records a step wrote, oldest first -/
@@ -478,6 +481,31 @@ theorem feed_step_silent {m : Mon} {s : State} (hv : ValidCfg s.cfg) (hI : Inv s
       exact silent_of_shape (d := []) hst rfl hv hI rfl rfl (Or.inl rfl) hm h.1 h.2.1 h.2.2
   | count => exact quiet_ok hv hI hm rfl rfl rfl rfl rfl
   | pools => exact quiet_ok hv hI hm rfl rfl rfl rfl rfl
+  | commitFail k =>
+    cases hl : AMap.lookup s.allocs k with
+    | some a => exact reask_ok hv hI hm (by simp [step, commitFail, hl]) rfl hl
+    | none =>
+      have e := commitFail_same s k
+      refine quiet_ok (s' := (commitFail s k).1) (o := (commitFail s k).2) hv hI hm rfl ?_ e.2.2.1 e.2.2.2 e.1
+      unfold commitFail; simp only [hl]; split <;> rfl
+  | allocFail k =>
+    cases hl : AMap.lookup s.allocs k with
+    | some a => exact reask_ok hv hI hm (by simp only [step]; rw [allocFail_eq]; simp [hl]) rfl hl
+    | none =>
+      have e := allocFail_same s k
+      refine quiet_ok (s' := (allocFail s k).1) (o := (allocFail s k).2) hv hI hm rfl ?_ e.2.2.1 e.2.2.2 e.1
+      rw [allocFail_eq]; simp only [hl]
+      unfold commitFail; simp only [hl]; split <;> rfl
+  | deallocFail k =>
+    cases hl : AMap.lookup s.allocs k with
+    | none =>
+      have hst : step s (.deallocFail k) = (s, .ok) := by simp [step, deallocFail, hl]
+      have h := api_released (s' := s) (k := k) hm
+        (by rw [erase_eq_self_of_not_mem (lookup_eq_none_iff.mp hl)]) s.cfg
+      exact silent_of_shape (d := []) hst rfl hv hI rfl rfl (Or.inl rfl) hm h.1 h.2.1 h.2.2
+    | some a =>
+      exact quiet_ok (o := .kernErr) hv hI hm (by simp [step, deallocFail, hl]) rfl rfl rfl rfl
+  | poke => exact quiet_ok hv hI hm rfl rfl rfl rfl rfl
 
 /-- the monitor is silent along every run of the model -/
 theorem monRun_silent {m : Mon} {s : State} (hv : ValidCfg s.cfg) (hI : Inv s) (hm : MI m s) (ops : List Op) :
@@ -763,6 +791,35 @@ theorem feedL_step_silent {l : Ledger} {s : State} (hv : ValidCfg s.cfg) (hI : I
       · rw [feedL_single]; exact Or.inl ⟨rfl, hm.ea, hm.er⟩
   | count => exact quietL_ok hm rfl rfl rfl rfl
   | pools => exact quietL_ok hm rfl rfl rfl rfl
+  | commitFail k =>
+    cases hlk : AMap.lookup s.allocs k with
+    | some a => exact reaskL_ok hm (by simp [step, commitFail, hlk]) rfl hlk
+    | none =>
+      have e := commitFail_same s k
+      refine quietL_ok (s' := (commitFail s k).1) (o := (commitFail s k).2) hm rfl ?_ e.2.2.1 e.2.2.2
+      unfold commitFail; simp only [hlk]; split <;> rfl
+  | allocFail k =>
+    cases hlk : AMap.lookup s.allocs k with
+    | some a => exact reaskL_ok hm (by simp only [step]; rw [allocFail_eq]; simp [hlk]) rfl hlk
+    | none =>
+      have e := allocFail_same s k
+      refine quietL_ok (s' := (allocFail s k).1) (o := (allocFail s k).2) hm rfl ?_ e.2.2.1 e.2.2.2
+      rw [allocFail_eq]; simp only [hlk]
+      unfold commitFail; simp only [hlk]; split <;> rfl
+  | deallocFail k =>
+    cases hlk : AMap.lookup s.allocs k with
+    | none =>
+      have hst : step s (.deallocFail k) = (s, .ok) := by simp [step, deallocFail, hlk]
+      have hh : AMap.lookup l.held k = none := by rw [hm.hl k, hlk]; rfl
+      have e : ledger s.cfg l (.released k) = (l, []) := by simp [ledger, hh]
+      refine silentL_of_shape (api := [.released k]) (d := []) hst rfl rfl ?_ ?_ ?_ ?_
+      · rw [feedL_single, e]
+      · rw [feedL_single, e]; exact hm.hl
+      · rw [feedL_single, e]; exact hm.nb
+      · rw [feedL_single, e]; exact Or.inl ⟨rfl, hm.ea, hm.er⟩
+    | some a =>
+      exact quietL_ok (o := .kernErr) hm (by simp [step, deallocFail, hlk]) rfl rfl rfl
+  | poke => exact quietL_ok hm rfl rfl rfl rfl
 
 theorem ledgerRun_silent {l : Ledger} {s : State} (hv : ValidCfg s.cfg) (hI : Inv s) (hm : LI l s)
     (ops : List Op) : ledgerRun s.cfg l s ops = [] := by
